@@ -12,7 +12,8 @@ RULE = ("cases: lin <n> {fee size}*n <m> {parent child}*m <max_cost> <rng_seed> 
         "non-topological permutation (flag 0); budgets 0, small, 10^12; random seeds. The driver runs the real "
         "ChunkLinearization(old), Linearize, PostLinearize (on Linearize's output and on old), ChunkLinearization[Info] of the results. "
         "Compared textually with the model: ChunkLinearization(old). Validated on the implementation's outputs by the proved "
-        "validators: topological + permutation (Linearize, PostLinearize), chunking equals the model's chunking, chunk feerates "
+        "validators: topological + permutation (Linearize, PostLinearize), chunking equals the model's chunking, PostLinearize "
+        "equals its model (on Linearize's output and on old), chunk feerates "
         "non-increasing, Linearize not worse than a topological input, PostLinearize not worse than its input, chunks connected after "
         "PostLinearize, ChunkLinearizationInfo sets, optimal flag => dominates every topological order (n <= 7). "
         "A case is non-trivial when n >= 3 and there is at least one dependency; distinct = distinct case lines.")
@@ -180,9 +181,12 @@ LEVEL_TEXT = ("Translation validation with proved validators. Proved in Coq for 
               "is_topological is exact (iff) for 'permutation with parents before children'; (3) valid_and_not_worse = true implies "
               "the new order is a linearization and, if the old one was, diagram(new) >= diagram(old) at every rational abscissa "
               "(via C30's CompareChunks theorem); (4) dominates_all_topo = true implies the diagram is >= that of every "
-              "linearization (enumeration proved complete); (5) is_connected sound. The real Linearize/PostLinearize are run on "
+              "linearization (enumeration proved complete); (5) is_connected sound; (6) the PostLinearize model (group list with "
+              "merge/swap, compared output-for-output with the real function) always returns a permutation of its input and a "
+              "linearization whenever the input is one. The real Linearize/PostLinearize are run on "
               "generated clusters and every output is checked by these validators.")
-LEVEL_NOTE = ("Not proved: that SFL (Linearize) or PostLinearize satisfy these clauses for every input; they are checked per output. "
+LEVEL_NOTE = ("Not proved: that SFL (Linearize) satisfies these clauses for every input, and that PostLinearize never worsens the diagram / "
+              "leaves connected chunks (proved for it: permutation + topological); those are checked per output. "
               "Optimality is checked exhaustively only for n <= 7. Framework workaround: props/C24.py subclasses Tie (LinTie) so that only the deterministic "
               "section is compared textually.")
 TECHNIQUE = "verified validators (Coq) + differential execution of the real Linearize/PostLinearize"
